@@ -115,6 +115,9 @@ mod serde;
 #[cfg(test)]
 mod test;
 
+#[cfg(feature = "verif-hooks")]
+pub mod verif_hooks;
+
 pub mod map;
 pub mod set;
 pub mod trieview;
